@@ -162,6 +162,11 @@ def tapes(draw, tier):
 def world_plans(draw, tier):
     nspecs = draw(st.sampled_from([1, 1, 2, 2, 2, 3]))
     specs = [draw(plans.specs('s{}'.format(i), max_classes=4)) for i in range(nspecs)]
+    if nspecs >= 2 and draw(st.integers(0, 2)) == 0:
+        # two applications on one library base class, each with its own same-named subclass
+        v = shared_base_variant(specs[0], 's1')
+        if v is not None:
+            specs[1] = v
     nfn = draw(st.integers(1, 4))
     setup = [draw(mk_ops(specs, slot)) for slot in range(nfn)]
     if draw(st.integers(0, 2)) == 0:
@@ -290,6 +295,29 @@ def same_named_variant(spec, uid):
             earlier.append(c['name'])
         c.pop('sav', None)
     return out
+
+
+def shared_base_variant(spec, uid):
+    """Another application built on the same library base class: the base class OBJECT of
+    `spec` is imported, and an own direct subclass gets the NAME of one of spec's."""
+    import copy
+    derived = [c for c in spec['classes'] if c['kind'] == 'regular' and c.get('base')
+               and c.get('registered', True)]
+    for d in derived:
+        base = U.class_by_name(spec, d['base'])
+        if base['kind'] in ('regular', 'abstract') and not base.get('base') \
+                and base.get('registered', True) \
+                and not any(plans._mentions_class(q['t']) for q in base.get('params', [])):
+            own = copy.deepcopy(d)
+            own.pop('sav', None)
+            own.pop('redef', None)
+            used = {q['n'] for q in U.all_params(spec, base)}
+            own['params'] = [q for q in own.get('params', []) if q['n'] not in used
+                             and not plans._mentions_class(q['t'])]
+            own.pop('defaults_override', None)
+            return {'uid': uid, 'import_from': spec['uid'], 'imported': [copy.deepcopy(base)],
+                    'classes': [own]}
+    return None
 
 
 @st.composite
